@@ -247,6 +247,13 @@ func NewOn(cfg Cfg, ds storage.OpenFGADatastore, path string) (*Srv, error) {
 		}
 		opts = append(opts, server.WithCheckQueryCacheEnabled(true), server.WithCheckQueryCacheTTL(ttl))
 	}
+	if !cfg.QueryCache && cfg.QueryCacheTTL != 0 {
+		// the setting exists independently of the cache being enabled (the cache controller reads it)
+		opts = append(opts, server.WithCheckQueryCacheTTL(cfg.QueryCacheTTL))
+	}
+	if !cfg.CheckIterCache && cfg.IterCacheTTL != 0 {
+		opts = append(opts, server.WithCheckIteratorCacheTTL(cfg.IterCacheTTL))
+	}
 	itTTL := cfg.IterCacheTTL
 	if itTTL == 0 {
 		itTTL = time.Hour
